@@ -15,7 +15,7 @@ from __future__ import annotations
 import ast
 from typing import Callable, List, Optional, Tuple
 
-from .model import dotted
+from .model import dotted, ufunc_as_operator
 
 INCREASING = {"log", "log1p", "exp", "expm1", "sqrt", "sum", "mean", "max", "min", "amax", "amin", "cumsum", "asarray", "array", "float", "float64", "atleast_1d", "squeeze",
               "logsumexp", "reduce", "accumulate", "nansum", "copy", "ravel", "reshape", "transpose",
@@ -60,6 +60,8 @@ def path_signs(root: ast.expr, is_target: Callable[[ast.AST], bool], sign_of: Ca
             go(e.value, s, why)
         elif isinstance(e, ast.Attribute):
             go(e.value, s if e.attr in ("T", "real") else None, why if e.attr in ("T", "real") else f"attribute .{e.attr}")
+        elif isinstance(e, ast.Call) and dotted(e.func).startswith(("np.", "numpy.")) and ufunc_as_operator("numpy." + dotted(e.func).split(".")[-1], e) is not None:
+            go(ufunc_as_operator("numpy." + dotted(e.func).split(".")[-1], e), s, why)
         elif isinstance(e, ast.Call):
             name = dotted(e.func).split(".")[-1] if dotted(e.func) else (e.func.attr if isinstance(e.func, ast.Attribute) else "")
             inc = name in INCREASING
